@@ -1109,6 +1109,17 @@ pub fn run_history(ch: &mut dyn Chooser, cfg: &Cfg, rep: &mut Report, want: &str
         ops_done += 1;
         match res {
             Ok(vs) => out.extend(vs),
+            Err(p) if p.file.contains("domops.rs") => {
+                // the panic is in this monitor's own bookkeeping, not in the library: it lost track of the DOM.
+                // After a deviation already reported for another property that is expected (model and DOM differ
+                // from then on); without one it is a defect of the monitor and the run is inconclusive.
+                if out.is_empty() {
+                    rep.notes.push(format!("INCONCLUSIVE monitor lost track of the DOM in {} ({} at {}:{}) with no earlier deviation", opn, p.msg, p.file, p.line));
+                } else if cov {
+                    rep.count("monitor-desync-after-other-property-violation");
+                }
+                break;
+            }
             Err(p) => {
                 out.push(V {
                     prop: "C09",
